@@ -239,6 +239,12 @@ def histories(bs, acc, shard):
                 continue
             members = [k for k in ('a', 'ext', 'd', 'd2') if k in ns]
             acc.state((cls, bits, shard['creation'], dname, T, hop[0] if hop else None))
+            # a derivation from a MUTABLE object hands back a distinct object (the same object under two names is the extreme case of shared state)
+            for x, y in (('a', 'd'), ('d', 'd2'), ('a', 'd2')):
+                if x in ns and y in ns and ns[x] is ns[y] and isinstance(ns[x], bs.BitArray):
+                    acc.step('derive', 1, nontrivial=1, ok=1)
+                    acc.violation('derive', 'state', dict(cls=cls, bits=bits, creation=shard['creation'], derive=dname, T=T, hop=hop[0] if hop else None, same=[x, y], group=f"same-object|{dname if y == 'd' else (hop[0] if hop else '')}"),
+                                  '\n'.join(["import bitstring, bitarray, array, copy, io", LSB0_SRC] + base + [f"assert {y} is not {x}"]), 'a new object', f'{y} is {x}')
             for target in members:
                 muts = mutations_for(ns[target])
                 if hop is not None and q:
